@@ -174,7 +174,7 @@ func main() {
 		for _, tc := range handWritten() {
 			emit(tc)
 		}
-		randomStructured(rng, seeds, r.N(20000, 3000000), emit)
+		randomStructured(rng, seeds, r.N(150000, 3000000), emit)
 		c.Count("seed_files", int64(len(seeds)))
 
 		nWorkers := 12
@@ -243,6 +243,7 @@ func main() {
 		close(jobs)
 		wg.Wait()
 		c.Count("cases.total", int64(len(cases)))
+		c.Evaluations(int64(len(cases)) - 1) // the enclosing Case counts as one
 		for i := 0; i < 3 && i < len(cases); i++ {
 			tc := cases[(i*7919+13)%len(cases)]
 			c.Sample("fault-case", 3, map[string]interface{}{"decoder": decoderNames[tc.dec], "what": tc.desc, "bytes": len(tc.data), "head": string(printable(tc.data, 80))})
